@@ -161,9 +161,10 @@ def edges_with_fact(fn, pred):
     cfg = fn.cfg
     for p, outs in cfg.edges.items():
         for q, lab in outs:
-            f = cfg.fact(lab)
-            if f is not None and pred(f[0], f[1]):
-                yield p, q, f[0], f[1]
+            for e, pol in cfg.facts(lab):
+                if pred(e, pol):
+                    yield p, q, e, pol
+                    break
 
 
 def local_decl(fn, pred):
@@ -481,10 +482,7 @@ def consistent_edges(fn, e, pol):
     txt = fn.text(e)
 
     def ok(lab, p, q):
-        f = cfg.fact(lab)
-        if f is None:
-            return True
-        return not (fn.text(f[0]) == txt and f[1] != pol)
+        return not any(fn.text(e2) == txt and pol2 != pol for e2, pol2 in cfg.facts(lab))
     return ok
 
 
